@@ -1084,3 +1084,86 @@ func fieldReaders(p *Program, typeName, field string) map[string]bool {
 	}
 	return out
 }
+
+// C10-R4b LOCAL-CHANGE-ONLY-BY-TXNID: LoadOnce reports "the application changed
+// something since the last sync" to the sync loop, which then keeps the old
+// watermark and uploads a snapshot. That report is the transaction-id test
+// lastTxnID < txn.ID()-1 and nothing else: every assignment of the variable the
+// test is stored in is that comparison (or false). Any further source of
+// "true" (entry counts that differ, a heuristic, a configuration flag) makes a
+// pure merge of remote data look like a local change: the instance uploads an
+// echo snapshot for every snapshot it receives.
+func ruleLocalChangeOnlyByTxnID(c *Check, rule string) {
+	fn, paths := c.walkFn(rule, fnLoadTxn, WalkConfig{Memo: true,
+		KeepEvent: func(e *Event) bool { return e.Kind == "ret" || e.Kind == "store" },
+		KeepAtom:  func(a Atom) bool { return false }})
+	if paths == nil {
+		return
+	}
+	pos := c.P.Pos(fn.Pos())
+	roles := loadRoles(c)
+	if !roles.ok {
+		c.Undecided(rule, fnLoadTxn+"/captured", "cannot identify the captured watermark of the transaction body", pos)
+		return
+	}
+	isTest := func(v string) bool {
+		return strings.HasPrefix(v, "("+roles.lastTxnID+" < ((*lmdb.Txn).ID@") && strings.HasSuffix(v, " - const:1))")
+	}
+	// the variable the test is stored in
+	addr := ""
+	for i := range paths {
+		for _, e := range paths[i].Events {
+			if e.Kind == "store" && isTest(e.Val) {
+				if addr != "" && addr != e.Addr {
+					c.Undecided(rule, fnLoadTxn+"/local-change-variable", "the local-change test is stored into more than one variable: "+addr+", "+e.Addr, pos)
+					return
+				}
+				addr = e.Addr
+			}
+		}
+	}
+	if addr == "" {
+		c.Undecided(rule, fnLoadTxn+"/local-change-variable", "the local-change test lastTxnID < txn.ID()-1 is not stored into a variable of LoadOnce", pos)
+		return
+	}
+	n, bad := 0, 0
+	seen := map[string]bool{}
+	for i := range paths {
+		p := &paths[i]
+		for j := range p.Events {
+			e := &p.Events[j]
+			if e.Kind != "store" || e.Addr != addr {
+				continue
+			}
+			key := c.P.InstrPos(e.Instr) + "|" + e.Val
+			if seen[key] {
+				continue
+			}
+			seen[key] = true
+			n++
+			if isTest(e.Val) || e.Val == "const:false" {
+				continue
+			}
+			bad++
+			c.Bad(rule, fnLoadTxn+"/local-change-only-by-txnid", "the local-change result of LoadOnce ("+addr+") is also set to "+e.Val+": a load is then reported as a local change for a reason other than an application transaction since the last sync, the watermark is not advanced and an echo snapshot is uploaded", evPos(c, e), describe(c, p))
+		}
+	}
+	// outside the transaction body the result is only reset
+	if parent := c.P.Func(fnLoadOnce); parent != nil && strings.HasPrefix(addr, "free:") {
+		for _, st := range capturedVarStores(parent, fn, strings.TrimPrefix(addr, "free:")) {
+			n++
+			if k, ok := st.Val.(*ssa.Const); ok && (k.Value == nil || k.Value.ExactString() == "false") {
+				continue
+			}
+			if ld, ok := st.Val.(*ssa.UnOp); ok && ld.Op == token.MUL && ld.X == st.Addr {
+				continue // "return txnID, localChanged, nil": the named result copied onto itself
+			}
+			bad++
+			c.Bad(rule, fnLoadOnce+"/local-change-only-by-txnid", "LoadOnce assigns its local-change result outside the transaction body from something other than false", c.P.InstrPos(st), nil)
+		}
+	}
+	if bad == 0 {
+		c.Ok(rule, fnLoadTxn+"/local-change-only-by-txnid", fmt.Sprintf("%d assignment(s) of the local-change result %s: the test lastTxnID < txn.ID()-1 (or false) only", n, addr), pos)
+	}
+	c.Floor(rule, n, 1, "assignments of LoadOnce's local-change result")
+}
